@@ -15,7 +15,6 @@ package capacity
 //@   ensures negative-rejected: requiredBytes < 0 ==> err != nil
 
 //@ func (*SpaceKeeper).checkOSDiskSize
-//@   requires len(sk.dbDirs) > 0
 //@   modifies nothing
 //@   ensures negative-rejected: requiredBytes < 0 ==> err != nil
 
@@ -30,7 +29,7 @@ package capacity
 //@   ensures only-appends: len(result0) >= len(dstList)
 
 //@ func (*SpaceKeeper).generateFillSpaceListBySize
-//@   requires size-range: 0 <= currentSize && currentSize <= targetSize && targetSize <= 4611686018427387904 && len(sk.dbDirs) > 0
+//@   requires size-range: 0 <= currentSize && currentSize <= targetSize && targetSize <= 4611686018427387904
 //@   loop i invariant reversed: tmpLen == 3 && len(allowedBL) == 3 && ((i == 0 && allowedBL[0] == 24 && allowedBL[1] == 26 && allowedBL[2] == 28) || (i == 1 && allowedBL[0] == 28 && allowedBL[1] == 26 && allowedBL[2] == 24))
 //@   loop bl invariant lengths: len(allowedBL) == 3 && allowedBL[0] == 28 && allowedBL[1] == 26 && allowedBL[2] == 24
 //@   loop bl invariant never-above-target: old(currentSize) <= currentSize && currentSize <= targetSize && (#rangeindex >= 0 ==> targetSize - currentSize < plotSz(allowedBL[#rangeindex]))
@@ -61,4 +60,11 @@ package capacity
 //@   ensures fills-up-to-smallest-plot: err == nil ==> currentSize <= result1 && result1 <= targetSize && targetSize - result1 < 100663296
 
 //@ func (*SpaceKeeper).generateNewWorkSpace
-//@   requires len(sk.dbDirs) > 0
+//@   assert-at call generateNewWorkSpaceByPath first-configured-directory: arg1 == sk.dbDirs[0]
+
+//@ func (*SpaceKeeper).ConfigureBySize
+//@   requires size-fits-int: targetSize <= 4611686018427387904
+//@   assert-at call fillSpaceListBySize below-minimum-rejected-first: targetSize >= 100663296
+//@   assert-at call fillSpaceListBySize exact-target: arg3 == targetSize
+//@   assert-at call fillSpaceListBySize from-zero: arg2 == 0
+//@   assert-at call generateFillSpaceListBySize reuse-before-create: arg3 == targetSize && 0 <= arg2 && arg2 <= arg3
